@@ -73,7 +73,7 @@ func (m *ViaModifier) ModifyRequest(req *http.Request) error {
 	sb.Grow(m.nextLen(via))
 
 	if via != "" {
-		if strings.Contains(via, m.tag) {
+		if viaHasPseudonym(via, m.tag) {
 			req.Close = true
 			return martian.ErrorStatus{
 				Err:    fmt.Errorf("via: detected request loop, header contains %s", via),
@@ -102,6 +102,17 @@ func (m *ViaModifier) ModifyRequest(req *http.Request) error {
 	req.Header.Set("Via", sb.String())
 
 	return nil
+}
+
+// viaHasPseudonym reports whether one of the comma separated Via elements
+// ("received-protocol received-by [comment]") was received by tag.
+func viaHasPseudonym(via, tag string) bool {
+	for _, elem := range strings.Split(via, ",") {
+		if f := strings.Fields(elem); len(f) >= 2 && f[1] == tag {
+			return true
+		}
+	}
+	return false
 }
 
 func (m *ViaModifier) nextLen(via string) int {
